@@ -120,3 +120,5 @@ type resultJSON struct {
 	Trace      []string        `json:"trace,omitempty"`
 	WallUs     int64           `json:"wall_us"`
 }
+
+func simrtCurrent() *simrt.Run { return simrt.Current() }
